@@ -1,5 +1,5 @@
 #!/usr/bin/env bash
-# tools/micro.sh run <quick|thorough> <out.json>   micro-schedule tier for C13 (Miri as the scheduler)
+# tools/micro.sh run <C13|C16> <quick|thorough> <out.json>   micro-schedule tier (Miri as the scheduler)
 # tools/micro.sh replay <replay.json>
 # One (subject, seed) pair = one Miri execution = one exactly repeatable interleaving of three
 # overlapping validation calls (full, stop-on-first, SwiftMessage::validate) on one shared message.
@@ -7,67 +7,75 @@ set -u
 HERE="$(cd "$(dirname "${BASH_SOURCE[0]}")/.." && pwd)"
 cd "$HERE/miri" || exit 2
 export CARGO_NET_OFFLINE=true
-RATE="${MTMIRI_PREEMPTION_RATE:-0.05}"
+RATE="${MTMIRI_PREEMPTION_RATE:-}"   # empty = per-run schedule 0.001 / 0.01 / 0.05 (coarse to fine interleavings)
 ROUNDS="${MTMIRI_ROUNDS:-2}"
-one() { # subject seed -> prints the program's MICRO-* lines, returns its exit code
-  MIRIFLAGS="-Zmiri-seed=$2 -Zmiri-preemption-rate=$RATE" cargo +nightly miri run --offline -q -- "$1" "$ROUNDS" 2>&1
+MODE="${MTMIRI_MODE:-c13}"
+rate_of() { # subject seed -> preemption rate of that run
+  if [ -n "$RATE" ]; then echo "$RATE"; else case $(( ($1 + $2) % 3 )) in 0) echo 0.001;; 1) echo 0.01;; *) echo 0.05;; esac; fi
+}
+one() { # subject seed [rate] -> prints the program's MICRO-* lines, returns its exit code
+  local r="${3:-$(rate_of "$1" "$2")}"
+  MIRIFLAGS="-Zmiri-seed=$2 -Zmiri-preemption-rate=$r" cargo +nightly miri run --offline -q -- "$MODE" "$1" "$ROUNDS" 2>&1
 }
 case "${1:-}" in
  replay)
   f="${2:?replay file}"
-  s=$(python3 -c "import json;r=json.load(open('$f'));print(r['subject'],r['seed'],r.get('preemption_rate','0.05'),r.get('rounds',3))") || exit 2
-  set -- $s; RATE="$3"; ROUNDS="$4"
-  echo "replaying micro-schedule run: subject=$1 miri seed=$2 preemption rate=$RATE rounds=$ROUNDS"
-  out="$(one "$1" "$2")"; echo "$out" | grep -E '^MICRO-' 
-  if echo "$out" | grep -q '^MICRO-VIOLATION'; then echo "VIOLATION property=C13 replay=$f"; exit 1; fi
+  s=$(python3 -c "import json;r=json.load(open('$f'));print(r['subject'],r['seed'],r.get('preemption_rate','0.05'),r.get('rounds',3),r.get('mode','c13'),r.get('property','C13'))") || exit 2
+  set -- $s; RATE="$3"; ROUNDS="$4"; MODE="$5"; PROP="$6"
+  echo "replaying micro-schedule run: mode=$MODE subject=$1 miri seed=$2 preemption rate=$RATE rounds=$ROUNDS"
+  out="$(one "$1" "$2" "$RATE")"; echo "$out" | grep -E '^MICRO-' 
+  if echo "$out" | grep -q '^MICRO-VIOLATION'; then echo "VIOLATION property=$PROP replay=$f"; exit 1; fi
   if echo "$out" | grep -qE '^MICRO-(OK|SKIP)'; then echo "replay: no violation — the recorded violation does not occur on this tree"; exit 0; fi
   echo "HARNESS-ERROR: miri run gave no verdict"; echo "$out" | tail -20; exit 2;;
  run)
-  tier="${2:-quick}"; outj="${3:?out json}"
+  PROP="${2:?property}"; tier="${3:-quick}"; outj="${4:?out json}"
+  case "$PROP" in C16) MODE=c16; ROUNDS="${MTMIRI_ROUNDS:-1}";; C15) MODE=c15; ROUNDS="${MTMIRI_ROUNDS:-6}";; *) MODE=c13;; esac
   t0=$(date +%s.%N)
   # build once (also proves the toolchain works); a failure here is a harness error
   n=$(cargo +nightly miri run --offline -q -- count 2>"$HERE/sim/miri-build.log" | tail -1)
   if ! [[ "$n" =~ ^[0-9]+$ ]]; then echo "HARNESS-ERROR: mtmiri does not build/run under miri (see sim/miri-build.log)"; tail -20 "$HERE/sim/miri-build.log"; exit 2; fi
   base="${VERIF_SEED:-20250917}"
   if [ "$tier" = thorough ]; then nseeds="${MTMIRI_SEEDS:-16}"; else nseeds="${MTMIRI_SEEDS:-1}"; fi
+  if [ "$PROP" = C16 ]; then n=$(( n < 10 ? n : 10 )); [ "$tier" = thorough ] || n=6; [ "$tier" = thorough ] && nseeds="${MTMIRI_SEEDS:-8}"; fi
+  if [ "$PROP" = C15 ]; then n=8; [ "$tier" = thorough ] || n=6; [ "$tier" = thorough ] && nseeds="${MTMIRI_SEEDS:-8}"; fi
   tmp="$(mktemp -d "$HERE/work/micro.XXXXXX")"
-  export -f one; export RATE ROUNDS
+  export -f one rate_of; export RATE ROUNDS MODE
   for ((s=0; s<n; s++)); do for ((k=0; k<nseeds; k++)); do echo "$s $(( (base % 100000) * 64 + s * 131 + k ))"; done; done > "$tmp/pairs"
   # 16 interpreters at a time
-  xargs -P 16 -L 1 bash -c 'out="$(one "$0" "$1")"; rc=$?; echo "$out" | grep -E "^MICRO-" | sed "s/^/seed=$1 /" ; if [ $rc -ne 0 ] && ! echo "$out" | grep -q "^MICRO-VIOLATION"; then echo "seed=$1 MICRO-HARNESS subject=$0 rc=$rc $(echo "$out" | tail -3 | tr "\n" " ")"; fi' < "$tmp/pairs" > "$tmp/out" 2>&1
+  xargs -P 16 -L 1 bash -c 'out="$(one "$0" "$1")"; rc=$?; echo "$out" | grep -E "^MICRO-" | sed "s/^/seed=$1 rate=$(rate_of "$0" "$1") /" ; if [ $rc -ne 0 ] && ! echo "$out" | grep -q "^MICRO-VIOLATION"; then echo "seed=$1 MICRO-HARNESS subject=$0 rc=$rc $(echo "$out" | tail -3 | tr "\n" " ")"; fi' < "$tmp/pairs" > "$tmp/out" 2>&1
   t1=$(date +%s.%N)
-  python3 - "$tmp/out" "$outj" "$n" "$nseeds" "$RATE" "$ROUNDS" "$HERE" "$(echo "$t1 - $t0" | bc)" <<'PY'
+  python3 - "$tmp/out" "$outj" "$n" "$nseeds" "$RATE" "$ROUNDS" "$HERE" "$(echo "$t1 - $t0" | bc)" "$PROP" "$MODE" <<'PY'
 import sys, json, re, os
-out, outj, n, nseeds, rate, rounds, here, wall = sys.argv[1:9]
+out, outj, n, nseeds, rate, rounds, here, wall, prop, mode = sys.argv[1:11]
 ok = skip = 0; viol = []; harness = []; samples = []; bad_runs = set()
 for l in open(out):
-    m = re.match(r"seed=(\d+) (MICRO-\w+) subject=(\d+)(.*)", l.strip())
+    m = re.match(r"seed=(\d+) (?:rate=(\S+) )?(MICRO-\w+) subject=(\d+)(.*)", l.strip())
     if not m: continue
-    seed, kind, subj, rest = int(m.group(1)), m.group(2), int(m.group(3)), m.group(4).strip()
+    seed, run_rate, kind, subj, rest = int(m.group(1)), (m.group(2) or rate), m.group(3), int(m.group(4)), m.group(5).strip()
     if kind == "MICRO-OK":
         ok += 1
         if len(samples) < 3: samples.append({"subject": subj, "miri_seed": seed, "result": rest})
     elif kind == "MICRO-SKIP": skip += 1
-    elif kind == "MICRO-VIOLATION": viol.append((subj, seed, rest)); bad_runs.add((subj, seed))
+    elif kind == "MICRO-VIOLATION": viol.append((subj, seed, rest, run_rate)); bad_runs.add((subj, seed))
     elif kind == "MICRO-HARNESS": harness.append(l.strip())
 reported = {}
-for subj, seed, rest in sorted(viol):
-    mt = re.search(r"mt=(\w+)", rest); inv = re.search(r"\b(I[0-9])\b", rest)
+for subj, seed, rest, run_rate in sorted(viol):
+    mt = re.search(r"mt=([\w+]+)", rest); inv = re.search(r"\b([ITO][0-9])\b", rest)
     seq = "already without any overlap" in rest
-    cls = f"C13/micro {inv.group(1) if inv else 'I?'} MT{mt.group(1) if mt else '?'} " + ("entry points disagree on a recorded subject" if seq else "result depends on overlapping calls")
+    cls = f"{prop}/micro {inv.group(1) if inv else 'I?'} MT{mt.group(1) if mt else '?'} " + ("disagreement on a recorded subject" if seq else "result depends on overlapping calls")
     if cls in reported: reported[cls]["runs"] += 1; continue
-    path = os.path.join(here, "replays", f"C13-micro-s{subj}-seed{seed}.json")
+    path = os.path.join(here, "replays", f"{prop}-micro-s{subj}-seed{seed}.json")
     os.makedirs(os.path.dirname(path), exist_ok=True)
-    json.dump({"format": "mtmiri-replay-1", "property": "C13", "engine": "micro-schedule", "subject": subj, "seed": seed,
-               "preemption_rate": rate, "rounds": int(rounds), "expect_class": cls, "expect_detail": rest}, open(path, "w"), indent=1)
+    json.dump({"format": "mtmiri-replay-1", "property": prop, "mode": mode, "engine": "micro-schedule", "subject": subj, "seed": seed,
+               "preemption_rate": run_rate, "rounds": int(rounds), "expect_class": cls, "expect_detail": rest}, open(path, "w"), indent=1)
     reported[cls] = {"class": cls, "detail": rest, "replay": path, "runs": 1}
 json.dump({"subjects": int(n), "seeds_per_subject": int(nseeds), "interleavings_executed": ok + len(bad_runs), "violating_interleavings": len(bad_runs), "ok": ok, "skipped_subjects_not_parsing": skip,
-           "preemption_rate": rate, "rounds_per_caller": int(rounds), "callers": 3, "wall_s": float(wall), "violations": list(reported.values()),
+           "preemption_rates": (rate or "0.001 / 0.01 / 0.05 by run"), "rounds_per_caller": int(rounds), "callers": 3, "property": prop, "wall_s": float(wall), "violations": list(reported.values()),
            "harness_errors": harness[:5], "samples": samples,
-           "components": {"real": ["swift-mt-message parser and validators, interpreted by Miri"], "stub": ["thread scheduler: Miri's seeded preemptive scheduler", "entropy and clock: Miri's deterministic shims"]}},
+           "components": {"real": ["swift-mt-message (parser, validators, field-map tokeniser, finders, sequence splitting), interpreted by Miri"], "stub": ["thread scheduler: Miri's seeded preemptive scheduler", "entropy and clock: Miri's deterministic shims"]}},
           open(outj, "w"), indent=1)
 print(f"micro-schedule: {ok + len(bad_runs)} interleavings over {n} subjects x {nseeds} seeds, {len(bad_runs)} violating, {skip} skipped, {len(harness)} harness errors, {float(wall):.1f}s")
 PY
   rm -rf "$tmp";;
- *) echo "usage: $0 run <tier> <out.json> | replay <file>"; exit 2;;
+ *) echo "usage: $0 run <C13|C16> <tier> <out.json> | replay <file>"; exit 2;;
 esac
